@@ -21,14 +21,14 @@ from ..stats import two_stage, binom_pmf
 ID = "C18"
 RULE = ("graphs: G(n,p) n<=60 (6%: 260..700 vertices) incl. edgeless and disconnected ones, trees, cycles, complete graphs, stars, unions of many components of assorted sizes in arbitrary order; phi on a grid "
         "{0, 0.05, .15, .3, .5, .7, .8, .95, 1} + random; seeded draws and scripted draws (all 0.0 / all 1-2^-53); statistical cases: star with "
-        "12 leaves and two disjoint stars with 6 leaves each at phi in {.15,.5,.8}; non-trivial = >= 2 edges and 0 < phi < 1; "
+        "12 leaves and two disjoint stars with 6 leaves each at phi in {.15,.5,.8}, and a MultiGraph star whose leaves hang on two parallel edges each (phi in {.3,.6}); non-trivial = >= 2 edges and 0 < phi < 1; "
         "distinct = SHA-1 of (graph, phi, schedule)")
 ASSUMPTIONS = ["per-edge exactness needs the draw pattern 'one random.random() per edge of the copy, in edge order' (observed per run; otherwise only the "
                "structural and statistical clauses decide)", "chi-square two-stage protocol"]
 HEADLINE = ["calls", "per_edge_exact_checks", "edges_decided", "structure_checks", "phi0_checks", "phi1_checks", "scripted_zero", "scripted_one",
-            "input_events", "star_samples", "two_star_samples", "chi2_tests", "chi2_escalations", "draw_pattern_missing"]
+            "input_events", "star_samples", "two_star_samples", "multigraph_star_samples", "chi2_tests", "chi2_escalations", "draw_pattern_missing"]
 REQUIRED = {t: {"structure_checks": 200, "phi0_checks": 10, "phi1_checks": 10, "scripted_zero": 10, "scripted_one": 10,
-                "star_samples": 4000, "two_star_samples": 4000} for t in ("quick", "thorough")}
+                "star_samples": 4000, "two_star_samples": 4000, "multigraph_star_samples": 4000} for t in ("quick", "thorough")}
 PHIS = [0.0, 0.05, 0.15, 0.3, 0.5, 0.7, 0.8, 0.95, 1.0]
 
 
@@ -39,6 +39,9 @@ def gen_cases(tier, seed):
     for phi in (0.15, 0.5, 0.8):
         cases.append({"kind": "star", "phi": phi, "R": R, "seed": seed * 31 + 1, "_cost": 30})
         cases.append({"kind": "twostars", "phi": phi, "R": R, "seed": seed * 31 + 2, "_cost": 30})
+    for phi in (0.3, 0.6):
+        # parallel edges are edges too: a MultiGraph star whose every leaf hangs on two parallel edges
+        cases.append({"kind": "multistar", "phi": phi, "R": R, "seed": seed * 31 + 3, "_cost": 30})
     return cases
 
 
@@ -180,7 +183,16 @@ def run_case(case):
         res.digest = digest([sorted(map(str, g.nodes())), sorted(sorted(map(str, e)) for e in g.edges()), case["seed"]])
         return res
     phi, R = case["phi"], case["R"]
-    if case["kind"] == "star":
+    if case["kind"] == "multistar":
+        M = 12
+        g = nx.MultiGraph()
+        for leaf in range(1, M + 1):
+            g.add_edge(0, leaf); g.add_edge(0, leaf)
+        pm = binom_pmf(M, 1 - (1 - phi) ** 2)
+        expected = {k: pm[k] for k in range(M + 1)}
+        N = M + 1
+        key = "multigraph_star_samples"
+    elif case["kind"] == "star":
         M = 12
         g = nx.star_graph(M)
         pm = binom_pmf(M, phi)
